@@ -184,7 +184,7 @@ Proof. intros H. constructor; [exact H|constructor]. Qed.
 Lemma step_core_nopay y l ch :
   (forall x sid' data, l <> LWrite x sid' data) -> nopay (snd (step_core y l ch)).
 Proof.
-  intros Hnw. destruct l as [x|x sid' data|x sid' k|x|x sid'|x|x c|c|d].
+  intros Hnw. destruct l as [x|x sid' data|x sid' k|x|x sid'|x|x c|c|d|c|x c].
   - rewrite step_core_open. unfold open_stream. destruct (se_closed _); [apply nopay_one; exact I|].
     cbv zeta. destruct (_ && _); apply nopay_one; exact I.
   - exfalso. eapply Hnw; reflexivity.
@@ -219,6 +219,11 @@ Proof.
     pose proof (fire_timers_nopay 64 ya SB cha) as Hb.
     destruct (fire_timers 64 ya SB cha) as [[yb chb] eb]. cbn in *.
     apply nopay_app; [exact Ha|apply nopay_app; [exact Hb|apply nopay_one; exact I]].
+  - rewrite step_core_break. destruct (nthN _ _) as [cn|]; apply nopay_one; exact I.
+  - rewrite step_core_notice. destruct (nthN _ _) as [cn|]; [|apply nopay_one; exact I].
+    destruct (_ && _); [|apply nopay_one; exact I].
+    pose proof (deplex_error_nopay y x c) as H. destruct (deplex_error y x c) as [y1 e1]. cbn in *.
+    apply nopay_app; [exact H|apply nopay_one; exact I].
 Qed.
 
 (* one label: the payload put on the wire for this direction is what the Write reports as accepted *)
